@@ -10,7 +10,7 @@ S = 'cnfgen/transformations/substitutions.py'
 C = 'cnfgen/formula/cnf.py'
 
 CLASSMODELS = {
-    'CNF': {'file': C, 'fields': {'_clauses': 'mclist', '_numvar': 'int'}},
+    'CNF': {'file': C, 'fields': {'_clauses': 'mclist', '_numvar': 'int', 'header': 'opaque'}},
     # abstract bipartite graph: identity `gid`, sizes; neighbour lists are the spec function rnbrs(gid, u)
     'BipartiteGraph': {'file': 'cnfgen/graphs.py', 'fields': {'gid': 'int', 'lorder': 'int', 'rorder': 'int'},
                        'invariant': ['self.lorder >= 0', 'self.rorder >= 0']},
